@@ -371,6 +371,19 @@ func effectiveProtocolVersionRange(config *dtlsConfig) (protocol.Version, protoc
 	minVersion, maxVersion := dtlsconfig.NormalizeProtocolVersionRange(config.MinVersion, config.MaxVersion)
 	versions := dtlsconfig.SupportedVersionsRange(minVersion, maxVersion)
 
+	// DTLS 1.3 is implemented with certificate authentication only. An endpoint
+	// whose sole credential is a pre-shared key must not reach it: the PSK would
+	// never be consulted and the peer would be accepted on whatever certificate
+	// verification the remaining options happen to give.
+	if config.psk != nil && !config.includeCertificateSuites() {
+		versions = filterSupportedVersions(versions, func(version protocol.Version) bool {
+			return !version.Equal(protocol.Version1_3)
+		})
+		if len(versions) == 0 {
+			return protocol.Version{}, protocol.Version{}, dtlserrors.ErrNoAvailablePSKCipherSuite
+		}
+	}
+
 	if cipherVersions := supportedCipherSuiteVersions(config.CipherSuites, versions); len(cipherVersions) != 0 {
 		versions = cipherVersions
 	}
